@@ -557,7 +557,20 @@ def build_member(kind: str, ctx: list[str], member: str, base0: Any,
         return in_ctx(ctx, replace(base0, **{f: _alt(kind, f, base0)}))
     if member.startswith("data:"):
         return in_ctx(ctx, _data_member(member))
+    if member.startswith("sym:"):
+        # the shape replaced by a SYMBOLIC one; the variants are different
+        # presentations of affine functions of one size parameter, some of them
+        # semantically equal (n+1 / 1+n, 2*n / n+n): structure decides, not value
+        import pytato as pt
+        n = pt.make_size_param("n")
+        comp = {"n+1": lambda: n + 1, "1+n": lambda: 1 + n, "2n": lambda: 2 * n,
+                "n+n": lambda: n + n, "nt+1": lambda: n.tagged(foo()) + 1}[member[4:]]()
+        return in_ctx(ctx, replace(base0, shape=(comp,)))
     raise MachineryError(f"the catalogue cannot build member {member}")
+
+
+SYM_MEMBERS = {k: ["sym:n+1", "sym:1+n", "sym:2n", "sym:n+n", "sym:nt+1"]
+               for k in ("IndexLambda", "Placeholder", "DistributedRecv")}
 
 
 def safe_hash(o: Any) -> str:
